@@ -198,10 +198,10 @@ func (e *extracter) extractField(val reflect.Value, s capnp.Struct, f schema.Fie
 		if err != nil {
 			return err
 		}
-		var b []byte
-		if p.IsValid() {
-			b = p.Data()
-		} else {
+		// Like the generated accessors (Ptr.DataDefault): a pointer that
+		// does not hold a data blob falls back to the schema default.
+		b := p.Data()
+		if b == nil {
 			b, _ = dv.Data()
 		}
 		val.SetBytes(b)
